@@ -120,9 +120,10 @@ func queueLinearizability(c *vlib.Check, histories int) {
 		go func() { // consumer
 			defer wg.Done()
 			got := 0
+			nilPeeks := 0
 			for spins := 0; got < total && spins < 1_000_000; spins++ {
 				var peeked driver.Command
-				record(100, qIn{Op: "peek"}, func() qOut {
+				peek := func() qOut {
 					peeked = q.Peek()
 					if peeked == nil {
 						return qOut{Val: -1}
@@ -130,8 +131,15 @@ func queueLinearizability(c *vlib.Check, histories int) {
 					idMu.Lock()
 					defer idMu.Unlock()
 					return qOut{Val: ids[peeked.GetID()]}
-				})
+				}
+				// keep histories short: only a few empty peeks are recorded
+				if q.NumCommand() == 0 && nilPeeks >= 3 {
+					runtime.Gosched()
+					continue
+				}
+				record(100, qIn{Op: "peek"}, peek)
 				if peeked == nil {
+					nilPeeks++
 					runtime.Gosched()
 					continue
 				}
